@@ -116,6 +116,26 @@ CLAIMED = {
         "hypotheses (overlay stack discipline, no assignment of a swapped key in G, no deletion of a swapped override). One genuine defect "
         "repaired (fix: 2d8e883). Trusted: pyvc engine + models + z3/cvc5.",
    design="§3 C11"),
+ "C10": dict(
+   category="proof",
+   text="Representation invariant of the detype cache, INV: Env._detyped is None or equals DET(shared layer) pointwise (a key is exported iff it is "
+        "set, not the DELETE_VAR mask, has a detyper and detypes to a string; the exported string is det(detyper, value)). Env.detype is proved for "
+        "all layers / overlay stacks / cache states: the result is DET of the calling thread's effective mapping (overlays top-most first, over the "
+        "thread's swap overrides, over the shared layer - two loops with invariants), masked and untranslatable entries omitted and nothing else, INV "
+        "kept, the cache used and filled only by a thread without overlays or overrides. Env._set_item (both modes, sync partner recursion, "
+        "$UPDATE_OS_ENVIRON mirroring and its rollback), Env._del_item, Env.replace_env, Env.__getitem__ (materialised callable defaults) and the "
+        "layered-dict primitives keep INV on normal AND exceptional exit (i.e. the cache is dropped whenever the shared layer changed), and "
+        "__getitem__ drops the cache whenever it hands out an editable value. Scalar converter/detyper pairs (to_bool/bool_to_str, "
+        "to_bool_or_none, to_bool_or_int, to_int_or_none, to_shlvl/adjust_shlvl) are proved inverse on all valid values (string theory). "
+        "Enum (complete): value types of the real registry vs the `editable` predicate. Bounded stand-ins (never counted as proved): "
+        "convert(detype(v)) == v over all registered variables x a value pool; cached vs recomputed detype() after every history of <= 4 (thorough 5) "
+        "operations out of 12 (set, del, hold, edit held, edit direct, swap+launch, read default, another thread inside a swap, equal-but-different re-assign).",
+   note="KNOWN FINDINGS (recorded): an edit through a reference obtained before the last launch is not seen (cache dropped on READ of a mutable); six lossy "
+        "string formats ($PATHEXT / csv sets with empty or separator-containing elements, non-integral history sizes, bools in int variables, None in "
+        "pattern / logfile variables). Two genuine defects repaired (fix: 7aeafb3, 2d58ace). Unverified: SubprocSpec.prep_env_subproc / cmds_to_specs "
+        "alignment of per-command overlays, LsColors / EnvPath / history-tuple / csv converters by SMT (bounded only), the detyper of each variable as a "
+        "function (det) that may raise, ChainMap semantics of dict(self._d), os.environ mirroring content. Trusted: pyvc engine + models + z3/cvc5.",
+   design="§3 C10"),
 }
 NA = {
  "C01": "equivalence of two grammars (PLY LALR tables vs CPython's PEG parser) is not a function contract; no contract within reach can express or decide it (DESIGN §3 C01)",
